@@ -74,7 +74,9 @@ FNS_RAISING = ["raise_value", "raise_on_str", "attr", "zerodiv", "ctxkey",
                # (not StopIteration: PEP 479 turns it into RuntimeError inside Filter.run's
                # generator, which is Python's doing, not lena's)
                "raise_stopfill", "raise_lenakey", "raise_runtime"]
-PREDS = ["isdict", "eq5", "truthy", "raise", "len2", "false"]
+PREDS = ["isdict", "eq5", "truthy", "raise", "len2", "false",
+         # classes used as predicates (called with the sub-context like any callable)
+         "cls_bool", "cls_dict", "cls_str"]
 
 
 class Marker(object):
@@ -381,6 +383,12 @@ def make_pred(name):
         return lambda s: False
     if name == "len2":
         return lambda s: len(s) == 2
+    if name == "cls_bool":
+        return bool
+    if name == "cls_dict":
+        return dict
+    if name == "cls_str":
+        return str
     if name == "raise":
         def pred_raise(s):
             raise LeafError("predicate raises")
@@ -754,6 +762,41 @@ def run_sel(r, obs, ctl):
                              "Filter(%r, raise_on_error=%r).fill_into over %r filled %r "
                              "(exception %r), expected %r (exception %r)"
                              % (spec, roe, flow, col.got, gexc, keep, exc))
+        # the same specification OBJECT used for two selectors with different raise_on_error
+        # (a list of cuts defined once): the second behaves like one built from its own copy,
+        # and the user's containers are left as they were
+        if spec[0] in ("or", "and") and spec[1]:
+            try:
+                obj = build(spec, True)
+
+                def layout(o):
+                    if isinstance(o, (list, tuple)):
+                        return (type(o).__name__, id(o), [layout(x) for x in o])
+                    return id(o)
+                before = layout(obj)
+                first = lena.flow.Selector(obj, raise_on_error=True)
+                second = lena.flow.Selector(obj, raise_on_error=False)
+            except Exception:  # pylint: disable=broad-except
+                obs.count("selector_constructions_failed")
+            else:
+                obs.count("shared_specification_objects")
+                ctl.evals += 1
+                if layout(obj) != before:
+                    ctl.fail("selector-changes-the-specification-it-was-given",
+                             "Selector(spec) changed the user's list / tuple in place: %r (was "
+                             "built from %r)" % (obj, spec))
+                st2 = Stats()
+                for vr in r["values"]:
+                    exp = outcome(lambda: ev(spec, make_value(vr), False, st2))
+                    got = outcome(lambda: second(make_value(vr)))
+                    ctl.evals += 1
+                    if got != exp:
+                        ctl.fail("selector-built-from-a-shared-specification-differs",
+                                 "two selectors built from one list object %r, raise_on_error=True "
+                                 "then False: the second gives %r for %r, one built from its own "
+                                 "copy %r" % (spec, got, make_value(vr), exp))
+                        break
+                del first
     obs.nontrivial = len(seen) >= 2
 
 
@@ -926,6 +969,36 @@ def run_group(r, obs, ctl):
                          "group although they differ on the selected key path %r"
                          % (gbl, mgl, ctxs[i], ctxs[j], ".".join(dp)))
     obs.nontrivial = len(groups) >= 2 and any(len(g) >= 2 for g in groups)
+    # the same object used again after reset(): the values filled since then are partitioned
+    # like a new GroupBy partitions them (the first one has the key of the last one before)
+    if flow and hasattr(gb, "reset"):
+        flow2 = [flow[-1]] + flow[::-1]
+        flow2 = [(100 + i) if not isinstance(v, tuple) else (100 + i, R.cp(v[1]))
+                 for i, v in enumerate(flow2)]
+        fresh = lena.flow.GroupBy(as_form(gbl, r["form"]), as_form(mgl, r["form"]))
+        gb.reset()
+        for v in flow2:
+            gb.fill(v)
+            fresh.fill(v)
+
+        def picture(gs):
+            return [[(v[0] if isinstance(v, tuple) else v) for v in g] for g in gs]
+        got2, exp2 = picture(gb.compute()), picture(fresh.compute())
+        obs.count("groupby_reuse_after_reset")
+        ctl.evals += 1
+        if got2 != exp2:
+            ctl.fail("groupby-after-reset-differs-from-new",
+                     "GroupBy(%r, %r) filled, computed, reset and filled with %d further values "
+                     "(the first with the context of the last one before the reset) gives groups "
+                     "%r, a new GroupBy %r" % (gbl, mgl, len(flow2), got2, exp2))
+        old_changed = picture(groups) != [[(v[0] if isinstance(v, tuple) else v) for v in g]
+                                          for g in [[flow[i] for i in sorted(
+                                              k for k in where if where[k] == gi)]
+                                              for gi in range(len(groups))]]
+        if old_changed:
+            ctl.fail("groupby-result-changed-by-later-fills",
+                     "the groups yielded before reset() were changed by fills after it: %r"
+                     % (picture(groups),))
 
 
 def only_empty_dicts(v):
@@ -968,3 +1041,6 @@ RULE += (' group_by / merge keys are listed in enumerated, reversed and shuffled
 RULE += (' Class leaves also include classes whose metaclass is not type (numbers.Real, '
          'collections.abc.Sized, a user abc.ABC hierarchy, an Enum, a custom metaclass); '
          'SelectContext is also applied to contexts that are trees of collections.defaultdict.')
+RULE += (' Added: classes used as SelectContext predicates; one list / tuple specification object '
+         'used for two selectors with different raise_on_error (and left unchanged); GroupBy used '
+         'again after reset().')
